@@ -145,6 +145,26 @@ TEXT_RULE = ("cases are generated from one xoshiro256** state seeded by VERIF_SE
              "non-trivial when its oracle is applicable (spec not n/a) and distinct by its full case line")
 
 PROPS = {
+    "C04": {
+        "rule": "G_prog: programs well-typed by construction (0-3 type declarations incl. nested arrays, 1-4 procedures, reference "
+                "parameters, nested if/else/while/blocks, calls, indexed variables, unary minus, parenthesised expressions; depth 3, "
+                "every 5th depth 5), each under two layouts (random whitespace/CRLF/tabs; comment lines in ANY token gap with "
+                "probability 20%): PARSE (implementation tree incl. every range, offset and diagnostic vs the Lean parser model), "
+                "SPECPARSE (implementation tree vs the independently written grammar derivation Spec/Grammar.lean with ranges placed "
+                "by the rule 'own tokens plus leading comments'). " + TEXT_RULE,
+        "unproved_parts": ["parse_conforms (Parse.parse toks = relativize (Grammar.parseAbs toks) for every valid token sequence) is "
+                           "compared on every run (SPECPARSE: implementation = specification, PARSE: implementation = model), not yet a theorem"],
+    },
+    "C05": {
+        "rule": "G_prog programs with >= 2 global declarations; one declaration k, one non-keyword token of it is deleted / replaced / "
+                "has a token inserted before it (34-token alphabet incl. unbalanced brackets and an unknown character); comment lines "
+                "are part of the shared token list; PROPCONTAIN (on implementation and on model): declarations before k keep their "
+                "sub-tree verbatim, declarations after k keep it up to the Reference offset, every lexical/syntax diagnostic lies in "
+                "the damaged segment; NEW (full analysis of the damaged program: implementation vs model). " + TEXT_RULE,
+        "unproved_parts": ["segmentation (parseDecls (a ++ b) = parseDecls a ++ shift (parseDecls b) when b starts a declaration) is "
+                           "evaluated (PROPCONTAIN) on implementation and model, not yet a theorem",
+                           "hover/goto inside undamaged declarations are covered by C12-C14's own checks, not re-run here"],
+    },
     "C20": {
         "binary": True,
         "no_harness_gen": True,
